@@ -20,8 +20,8 @@ CONSTANTS Stored,       \* set of initial contents (sequences of byte values)
           MaxLen,       \* bound on Len(data) for model checking
           FlagSets      \* set of flag records
 
-VARIABLES data, pos, fl, last, n
-fvars == <<data, pos, fl, last, n>>
+VARIABLES data, pos, fl, last, n, stored   \* stored = content before the handle was opened
+fvars == <<data, pos, fl, last, n, stored>>
 
 Min(a, b) == IF a < b THEN a ELSE b
 Zeros(k) == [i \in 1..k |-> 0]
@@ -41,7 +41,8 @@ R(op, a, b, res, cnt, bytes, eof) == [op |-> op, a |-> a, b |-> b, res |-> res, 
 
 Init ==
   /\ fl \in FlagSets
-  /\ \E s \in Stored : data = IF fl.trunc /\ fl.write THEN <<>> ELSE s
+  /\ stored \in Stored
+  /\ data = IF fl.trunc /\ fl.write THEN <<>> ELSE stored
   /\ pos = 0
   /\ n = 0
   /\ last = R("Open", 0, 0, "ok", 0, <<>>, "no")
@@ -110,7 +111,7 @@ Step ==
   \/ \E o \in Offsets : Truncate(o)
   \/ StatH \/ SyncH
 
-Next == Step /\ n' = n + 1
+Next == Step /\ n' = n + 1 /\ UNCHANGED stored
 Spec == Init /\ [][Next]_fvars
 
 \* ---- sanity properties of the reference itself
